@@ -7,6 +7,8 @@ from simprocesd.model.factory_floor import Source, PartProcessor, Sink
 from simprocesd.model.sensors import PeriodicSensor, OutputPartSensor, AttributeProbe, Probe
 from simprocesd.model.cms import Cms
 
+import copy
+
 from vlib.runner import Violation
 from vlib.weights import Weights, installed
 
@@ -31,7 +33,13 @@ def _run(case):
     def setq(m, p):
         p.quality = round(env.now * 3) % 7
     P.add_finish_processing_callback(setq)
-    Sink('K', [P])
+    # a zero-cycle station right behind the sensed machine changes the probed attribute at the same instant
+    P2 = PartProcessor('P2', [P], 0)
+
+    def spoil(m, p):
+        p.quality = -1
+    P2.add_finish_processing_callback(spoil)
+    Sink('K', [P2])
     cap = INF if case['cap'] == 'inf' else case['cap']
     iv = case['iv']
     n = case['n']
@@ -47,6 +55,7 @@ def _run(case):
     for b in bumps:
         env.schedule_event(b, -6, bump, EventType.OTHER_HIGH_PRIORITY)
     box = {}
+    kept = []
     cb = []
     ocb = []
     cm = []
@@ -61,10 +70,13 @@ def _run(case):
     os_.add_on_sense_callback(lambda se, t, d: ocb.append((se, t, list(d), env.now)))
 
     def make_periodic():
-        ps = PeriodicSensor(iv, [AttributeProbe('w', tg), Probe(lambda t: t.v, tg)], 'ps', data_capacity=cap)
+        ps = PeriodicSensor(iv, [AttributeProbe('w', tg), Probe(lambda t: t.v, tg), AttributeProbe('v', tg)], 'ps',
+                            data_capacity=cap)
         box['ps'] = ps
         for i in range(case['ncb']):
             ps.add_on_sense_callback(lambda se, t, d, i=i: cb.append((i, se, t, list(d), env.now)))
+        # a consumer that keeps the list it was handed (without copying it)
+        ps.add_on_sense_callback(lambda se, t, d: kept.append((d, [copy.copy(x) for x in d])))
         if case.get('twin_name'):
             # a second, different sensor that carries the same user-chosen name
             box['twin'] = PeriodicSensor(case['twin_name'], [AttributeProbe('w', tg)], 'ps')
@@ -110,12 +122,20 @@ def _run(case):
         if lst != list(range(0, w_at(x) + 1)):
             raise Violation('C19.copy', f'the value stored for the list probe at {x} is {lst[-4:]} (len {len(lst)}); at that '
                             f'moment the probed list ended with {w_at(x)} (len {w_at(x) + 1}): not a copy of the value then')
+    if ps.data[pr[2]] != ps.data[pr[1]]:
+        raise Violation('C19.copy', f'the attribute probe on a list attribute stored {str(ps.data[pr[2]][-1:])[:80]}, the '
+                        f'function probe on the same list stored {str(ps.data[pr[1]][-1:])[:80]} (a later in-place change of '
+                        f'the probed list leaked into the stored measurement)')
+    for (got, then) in kept:
+        if got != then:
+            raise Violation('C19.callback-args', f'the list of values handed to an on-sense callback was changed afterwards: '
+                            f'it was {str(then)[:80]} at the call and reads {str(got)[:80]} now')
     exp_cb = [(i, t_) for t_ in times for i in range(case['ncb'])]
     if [(x[0], x[2]) for x in cb] != exp_cb:
         raise Violation('C19.callbacks', f'on-sense callbacks (index, time) {[(x[0], x[2]) for x in cb][:6]} expected '
                         f'{exp_cb[:6]}')
     for (i, se, t_, d, now) in cb:
-        if se is not ps or t_ != now or d != [w_at(t_), list(range(0, w_at(t_) + 1))]:
+        if se is not ps or t_ != now or d != [w_at(t_), list(range(0, w_at(t_) + 1)), list(range(0, w_at(t_) + 1))]:
             raise Violation('C19.callback-args', f'on-sense callback {i} at {now} got (sensor ok={se is ps}, time {t_}, '
                             f'values {str(d)[:60]})')
     # ---- output part sensor: first finished part, then every (n+1)-th
